@@ -656,6 +656,7 @@ pub fn run(ctx: &Ctx) {
         scenarios.push(Scenario { name: src.name.clone(), file: Bytes(src.data.clone()), password: Bytes(src.pw.clone()), calls, shared_resolver: k % 4 < 2, cached: k % 3 == 0, mode: "scheduled".into(), schedule: vec![], repeat: 1 });
     }
     let cyclic_doc: Vec<u8>;
+    let cyclic_compressed: Vec<u8>;
     // hostile graphs: typed references that form a cycle (page-tree nodes naming each other as /Parent); a single
     // thread gets "Recursive reference", and so must threads that enter the cycle at different nodes
     {
@@ -674,7 +675,26 @@ pub fn run(ctx: &Ctx) {
         w.xref_table(9, &[(Bytes::from("Root"), Val::Ref(1, 0))], false);
         let data = w.finish();
         cyclic_doc = data.clone();
+        // the same nodes as members of an object stream: reading a node first loads the stream (a nested load
+        // that completes before the cyclic reference is followed)
+        let compressed = {
+            let mut w = crate::engine::writer::Writer::new(b"", "1.7");
+            for (n, v) in crate::engine::writer::minimal_catalog(1, 2, 3, 1) {
+                w.obj(n, 0, &v);
+            }
+            let members: Vec<(u64, Val)> = vec![(4, node(5)), (5, node(4)), (6, node(7)), (7, node(8)), (8, node(6))];
+            w.objstm(9, &members, &[crate::engine::writer::FilterSpec::Flate { raw: false, level: 6 }], true, &[]);
+            w.xref_stream(10, 11, &[(Bytes::from("Root"), Val::Ref(1, 0))], false, &[], false);
+            w.finish()
+        };
         let mut k = 0usize;
+        for calls in [vec![vec![TCall::GetPagesNode(4)], vec![TCall::GetPagesNode(5)]], vec![vec![TCall::GetPagesNode(6)], vec![TCall::GetPagesNode(7)], vec![TCall::GetPagesNode(8)]]] {
+            for shared in [true, false] {
+                scenarios.insert(k, Scenario { name: "cyclic-parents".into(), file: Bytes(compressed.clone()), password: Bytes(vec![]), calls: calls.clone(), shared_resolver: shared, cached: true, mode: "scheduled".into(), schedule: vec![], repeat: 1 });
+                k += 1;
+            }
+        }
+        cyclic_compressed = compressed;
         for calls in [vec![vec![TCall::GetPagesNode(4)], vec![TCall::GetPagesNode(5)]], vec![vec![TCall::GetPagesNode(6)], vec![TCall::GetPagesNode(7)], vec![TCall::GetPagesNode(8)]], vec![vec![TCall::GetPagesNode(4), TCall::Page(0)], vec![TCall::GetPagesNode(5), TCall::GetPagesNode(4)]]] {
             for cached in [true, false] {
                 for shared in [true, false] {
@@ -722,6 +742,10 @@ pub fn run(ctx: &Ctx) {
         stress.push(Scenario { name: src.name.clone(), file: Bytes(src.data.clone()), password: Bytes(src.pw.clone()), calls, shared_resolver: k % 2 == 0, cached: k % 4 < 2, mode: "stress".into(), schedule: vec![], repeat: ctx.tier.pick(40, 300) });
     }
     // free-running threads on the cyclic document (each thread enters the cycle at another node), cold caches each repeat
+    for (k, nodes) in [vec![4u64, 5], vec![6, 7, 8]].into_iter().enumerate() {
+        let calls: Vec<Vec<TCall>> = nodes.iter().map(|n| vec![TCall::GetPagesNode(*n)]).collect();
+        stress.push(Scenario { name: "cyclic-parents".into(), file: Bytes(cyclic_compressed.clone()), password: Bytes(vec![]), calls, shared_resolver: k % 2 == 0, cached: true, mode: "stress".into(), schedule: vec![], repeat: ctx.tier.pick(400, 4000) });
+    }
     for (k, nodes) in [vec![4u64, 5], vec![6, 7, 8], vec![4, 5, 6, 7]].into_iter().enumerate() {
         for cached in [true, false] {
             let calls: Vec<Vec<TCall>> = nodes.iter().map(|n| vec![TCall::GetPagesNode(*n), TCall::Page(0)]).collect();
